@@ -19,7 +19,7 @@ use constriction::stream::queue::{RangeDecoder, RangeEncoder};
 use constriction::stream::{Code, Decode, Encode};
 use constriction::UnwrapInfallible;
 use hcommon::{gen_tab, hexwords, Tab};
-use vengine::{note, vcheck, vfail, CaseResult, Ctx, Src};
+use vengine::{note, vassume, vcheck, vfail, CaseResult, Ctx, Src};
 
 macro_rules! precs {
     ([$(($Pr:ty, $P:literal)),+]) => { [$($P as u32),+] };
@@ -47,7 +47,7 @@ macro_rules! c11_row {
                     let tab = gen_tab(src, PRECS[sel as usize], sel, 6);
                     let sym = src.below_usize(tab.n());
                     let r = with_prec!(tab.sel, $plist, |M| enc.encode_symbol(sym, M::new(&tab)));
-                    vcheck!(r.is_ok(), "C02/encode_failed", "{:?}", r);
+                    vassume!(ctx, r.is_ok(), "foreign:C02/encode_failed");
                     msg.push((sym, tab));
                 }
                 if steer || k == 0 {
@@ -89,13 +89,13 @@ macro_rules! c11_row {
                         let tab = gen_tab(src, prec, sel, 6);
                         let sym = src.below_usize(tab.n());
                         let r = with_prec!(tab.sel, $plist, |M| enc.encode_symbol(sym, M::new(&tab)));
-                        vcheck!(r.is_ok(), "C02/encode_failed", "{:?}", r);
+                        vassume!(ctx, r.is_ok(), "foreign:C02/encode_failed");
                         msg.push((sym, tab));
                     } else {
                         let tab = Tab { cdf, prec, sel };
                         ctx.label("steered_final_symbol");
                         let r = with_prec!(tab.sel, $plist, |M| enc.encode_symbol(sym, M::new(&tab)));
-                        vcheck!(r.is_ok(), "C02/encode_failed", "{:?}", r);
+                        vassume!(ctx, r.is_ok(), "foreign:C02/encode_failed");
                         msg.push((sym, tab));
                     }
                 }
@@ -140,7 +140,7 @@ macro_rules! c11_row {
                             // high symbols give large cumulatives, i.e. leading one bits
                             let sym = tab.n() - 1 - src.below_usize(tab.n().min(2));
                             let r = with_prec!(tab.sel, $plist, |M| e2.encode_symbol(sym, M::new(&tab)));
-                            vcheck!(r.is_ok(), "C02/encode_failed", "{:?}", r);
+                            vassume!(ctx, r.is_ok(), "foreign:C02/encode_failed");
                             msg2.push((sym, tab));
                         }
                         all = e2.into_compressed().unwrap_infallible();
